@@ -41,6 +41,8 @@ use crate::object::{
 };
 use crate::utils;
 use crate::value::Value;
+#[cfg(yarel_verif)]
+use crate::verif;
 
 const RANGE_CACHE_SIZE: usize = 8;
 
@@ -117,6 +119,19 @@ enum IndexResult {
     Slice(Vec<Value>),
 }
 
+#[cfg(yarel_verif)]
+#[derive(Clone, Debug, Default, PartialEq)]
+pub struct VerifVmState {
+    pub frames: usize,
+    pub stack: usize,
+    pub handlers: usize,
+    pub handling_exception: bool,
+    pub working_class_def: bool,
+    pub modules: Vec<(String, bool)>,
+    pub chunks: usize,
+    pub interned: usize,
+}
+
 pub struct Vm {
     ip: *const u8,
     active_module: Gc<RefCell<ObjModule>>,
@@ -184,6 +199,8 @@ impl Vm {
         self.ip = ptr::null();
         self.fiber = None;
         self.handling_exception = false;
+        #[cfg(yarel_verif)]
+        self.verif_run_start();
         let module = self.module(&function.module_path);
         let closure = self.new_root_obj_closure(function.as_gc(), module);
         let fiber = self.new_root_obj_fiber(closure.as_gc());
@@ -271,6 +288,22 @@ impl Vm {
             hasher.finish()
         };
         let key = (hash, data);
+        #[cfg(yarel_verif)]
+        if verif::wants(verif::EV_INTERN) {
+            let (index, hit) = self.string_store.verif_probe(key);
+            verif::emit(
+                verif::EV_INTERN,
+                format!(
+                    "{{\"e\":\"Intern\",\"h\":{},\"text\":{},\"hit\":{},\"idx\":{},\"cap\":{},\"size\":{}}}",
+                    hash & 0xfffff,
+                    verif::json_str(data),
+                    hit,
+                    index,
+                    self.string_store.verif_capacity(),
+                    self.string_store.verif_size()
+                ),
+            );
+        }
         if let Some(string) = self.string_store.get(key) {
             return string.as_gc();
         }
@@ -408,6 +441,8 @@ impl Vm {
     }
 
     pub fn reset(&mut self) {
+        #[cfg(yarel_verif)]
+        verif::emit(verif::EV_VM, "{\"e\":\"Reset\"}".to_string());
         self.reset_stack();
         self.chunks = self.core_chunks.clone();
         self.modules.retain(|&k, _| k.as_str() == "main");
@@ -511,6 +546,8 @@ impl Vm {
         }
 
         self.load_frame();
+        #[cfg(yarel_verif)]
+        self.verif_ev("LoadFiber", String::new());
         Ok(())
     }
 
@@ -534,6 +571,8 @@ impl Vm {
         }
         self.poke(0, arg.unwrap_or_default());
         self.load_frame();
+        #[cfg(yarel_verif)]
+        self.verif_ev("UnloadFiber", String::new());
         Ok(())
     }
 
@@ -1089,9 +1128,13 @@ impl Vm {
         };
         self.active_fiber_mut().stack.truncate(init_stack_size);
         self.ip = new_ip;
+        #[cfg(yarel_verif)]
+        self.verif_ev("JumpFinally", String::new());
     }
 
     fn end_finally_impl(&mut self) -> Result<(), Error> {
+        #[cfg(yarel_verif)]
+        self.verif_ev("EndFinally", String::new());
         if self.handling_exception {
             self.unwind_stack()?;
         }
@@ -1112,13 +1155,22 @@ impl Vm {
 
         self.active_fiber_mut()
             .push_exc_handler(catch_ip, finally_ip);
+        #[cfg(yarel_verif)]
+        self.verif_ev(
+            "PushHandler",
+            format!(",\"fin\":{}", (catch_size != 0) as u8),
+        );
     }
 
     fn pop_exc_handler_impl(&mut self) {
+        #[cfg(yarel_verif)]
+        self.verif_ev("PopHandler", String::new());
         self.active_fiber_mut().pop_exc_handler();
     }
 
     fn throw_impl(&mut self) -> Result<(), Error> {
+        #[cfg(yarel_verif)]
+        self.verif_ev("Throw", String::new());
         self.handling_exception = true;
         self.active_fiber_mut().error_ip = Some(self.ip);
         self.unwind_stack()
@@ -1189,6 +1241,8 @@ impl Vm {
     }
 
     fn return_impl(&mut self) -> Result<Option<Value>, Error> {
+        #[cfg(yarel_verif)]
+        self.verif_ev("Return", String::new());
         let result = self.pop();
         self.active_fiber_mut().close_upvalues_for_frame();
 
@@ -1270,6 +1324,11 @@ impl Vm {
     fn start_import_impl(&mut self) -> Result<(), Error> {
         let path = self.read_string();
 
+        #[cfg(yarel_verif)]
+        self.verif_ev(
+            "StartImport",
+            format!(",\"path\":{}", verif::json_str(path.as_str())),
+        );
         if let Some(module) = self.modules.get(&path).map(|m| m.as_gc()) {
             if module.borrow().imported {
                 self.push(Value::ObjModule(module));
@@ -1322,6 +1381,11 @@ impl Vm {
             .try_as_obj_module()
             .expect("Expected ObjModule.");
         module.borrow_mut().imported = true;
+        #[cfg(yarel_verif)]
+        self.verif_ev(
+            "FinishImport",
+            format!(",\"path\":{}", verif::json_str(module.borrow().path.as_str())),
+        );
     }
 
     fn string_get_item(&mut self) -> Result<(), Error> {
@@ -1503,6 +1567,8 @@ impl Vm {
         self.active_fiber_mut().current_frame_mut().unwrap().ip = self.ip;
         self.active_fiber_mut().push_call_frame(closure);
         self.load_frame();
+        #[cfg(yarel_verif)]
+        self.verif_ev("Call", String::new());
         Ok(())
     }
 
@@ -1533,6 +1599,8 @@ impl Vm {
     fn unwind_stack(&mut self) -> Result<(), Error> {
         let exc_object = self.peek(0);
 
+        #[cfg(yarel_verif)]
+        self.verif_ev("Unwind", String::new());
         let exc_handler = self.active_fiber_mut().pop_exc_handler();
         let handler = if let Some(h) = exc_handler {
             h
@@ -1554,6 +1622,14 @@ impl Vm {
         }
         self.active_fiber_mut().current_frame_mut().unwrap().ip = handler.catch_ip;
         self.load_frame();
+        #[cfg(yarel_verif)]
+        self.verif_ev(
+            "Landed",
+            format!(
+                ",\"h\":{},\"fc\":{}",
+                handler.init_stack_size, handler.frame_count
+            ),
+        );
 
         Ok(())
     }
@@ -1892,6 +1968,97 @@ impl Vm {
         self.set_global(module_path, "Fiber", Value::ObjClass(obj_fiber_class));
     }
 
+    #[cfg(yarel_verif)]
+    fn verif_run_start(&mut self) {
+        verif::emit(
+            verif::EV_VM,
+            format!(
+                "{{\"e\":\"RunStart\",\"hx\":{},\"wcd\":{}}}",
+                self.handling_exception as u8,
+                self.working_class_def.is_some() as u8
+            ),
+        );
+    }
+
+    /// One event per interpreter action: the action's name plus the cheap
+    /// scalar state the trace specification binds (active fiber identity in both
+    /// representations, frame count, stack height, handler count, in-flight flag).
+    #[cfg(yarel_verif)]
+    fn verif_ev(&self, name: &str, extra: String) {
+        if !verif::wants(verif::EV_VM) {
+            return;
+        }
+        let (fib, nf, sl, nh, callers) = match self.fiber.as_ref() {
+            Some(f) => {
+                let fiber = f.borrow();
+                let mut depth = 0;
+                let mut caller = fiber.caller;
+                while let Some(c) = caller {
+                    depth += 1;
+                    caller = c.borrow().caller;
+                    if depth > 1000 {
+                        break;
+                    }
+                }
+                (
+                    (**f).as_ptr() as usize,
+                    fiber.frames.len(),
+                    fiber.stack.len(),
+                    fiber.exc_handlers.len(),
+                    depth,
+                )
+            }
+            None => (0, 0, 0, 0, 0),
+        };
+        verif::emit(
+            verif::EV_VM,
+            format!(
+                "{{\"e\":{},\"fib\":{},\"ufib\":{},\"nf\":{},\"sl\":{},\"nh\":{},\"hx\":{},\"cd\":{}{}}}",
+                verif::json_str(name),
+                fib,
+                self.unsafe_fiber as usize,
+                nf,
+                sl,
+                nh,
+                self.handling_exception as u8,
+                callers,
+                extra
+            ),
+        );
+    }
+
+    /// Read-only snapshot for conformance checks.
+    #[cfg(yarel_verif)]
+    pub fn verif_state(&self) -> VerifVmState {
+        let (frames, stack, handlers) = match self.fiber.as_ref() {
+            Some(f) => {
+                let fiber = f.borrow();
+                (
+                    fiber.frames.len(),
+                    fiber.stack.len(),
+                    fiber.exc_handlers.len(),
+                )
+            }
+            None => (0, 0, 0),
+        };
+        let mut modules: Vec<(String, bool)> = self
+            .modules
+            .iter()
+            .map(|(k, m)| (k.as_str().to_string(), m.borrow().imported))
+            .collect();
+        modules.sort();
+        VerifVmState {
+            frames,
+            stack,
+            handlers,
+            handling_exception: self.handling_exception,
+            working_class_def: self.working_class_def.is_some(),
+            modules,
+            chunks: self.chunks.len(),
+            interned: self.string_store.verif_size(),
+        }
+    }
+
     fn load_frame(&mut self) {
         let (prev_chunk, prev_module, new_ip) = {
             let active_fiber = self.active_fiber();
@@ -2015,6 +2182,37 @@ mod string_store {
         }
     }
 
+    #[cfg(yarel_verif)]
+    impl ObjStringStore {
+        /// Slot the probe sequence for `key` ends at, and whether it holds `key`.
+        pub(super) fn verif_probe(&self, key: (u64, &str)) -> (usize, bool) {
+            let index = find_index(&self.entries, key, self.mask);
+            (index, self.entries[index].is_some())
+        }
+
+        pub(super) fn verif_capacity(&self) -> usize {
+            self.entries.len()
+        }
+
+        pub(super) fn verif_size(&self) -> usize {
+            self.size
+        }
+
+        pub(super) fn verif_mask(&self) -> usize {
+            self.mask
+        }
+
+        pub(super) fn verif_dump(&self) -> Vec<Option<(u64, String, usize)>> {
+            self.entries
+                .iter()
+                .map(|e| {
+                    e.as_ref()
+                        .map(|s| (s.hash, s.as_str().to_string(), s.as_gc().as_ptr() as usize))
+                })
+                .collect()
+        }
+    }
+
     fn find_index(entries: &Vec<Option<Root<ObjString>>>, key: (u64, &str), mask: usize) -> usize {
         let (hash, string) = key;
         let mut index = (hash as usize) & mask;
@@ -2042,6 +2240,60 @@ mod string_store {
                 size: 0,
                 mask: INIT_CAPACITY - 1,
             }
+        }
+    }
+}
+
+/// A stand-alone intern table driven with caller-chosen hashes, so that
+/// conformance checks can reach full-hash collisions and engineered probe
+/// chains that real FNV hashes cannot produce on demand.
+#[cfg(yarel_verif)]
+pub mod verif_intern {
+    use super::string_store::ObjStringStore;
+    use crate::memory::{Gc, Root};
+    use crate::object::ObjString;
+
+    pub struct Table {
+        store: ObjStringStore,
+    }
+
+    pub struct InternResult {
+        pub hit: bool,
+        pub id: usize,
+    }
+
+    impl Table {
+        pub fn new() -> Self {
+            Table {
+                store: ObjStringStore::new(),
+            }
+        }
+
+        /// Exactly the body of `Vm::new_gc_obj_string`, with the hash supplied.
+        pub fn intern(&mut self, hash: u64, text: &str) -> InternResult {
+            let key = (hash, text);
+            if let Some(string) = self.store.get(key) {
+                return InternResult {
+                    hit: true,
+                    id: string.as_gc().as_ptr() as usize,
+                };
+            }
+            let string = Root::new(ObjString::new(Gc::dangling(), text, hash));
+            let id = string.as_gc().as_ptr() as usize;
+            self.store.insert(string);
+            InternResult { hit: false, id }
+        }
+
+        pub fn dump(&self) -> Vec<Option<(u64, String, usize)>> {
+            self.store.verif_dump()
+        }
+
+        pub fn size(&self) -> usize {
+            self.store.verif_size()
+        }
+
+        pub fn mask(&self) -> usize {
+            self.store.verif_mask()
         }
     }
 }
